@@ -131,6 +131,41 @@ func TestPropSwapCurve(t *testing.T) {
 						rt.Fatalf("swap charged more than the exact curve by more than the rounding allowance: %s [history %v]", desc, s.Hist)
 					}
 				}
+			} else if exactIn {
+				// the walk stopped with input left over and the swap still executed: a partial fill at the minimum /
+				// maximum price (liquidity reaches the extreme tick). The payout is judged as before; the amount CHARGED
+				// must be what the curve consumed up to the boundary (spread charge included), not what was offered.
+				paidR, gotR := new(big.Rat).SetInt(paid), new(big.Rat).SetInt(got)
+				if gotR.Cmp(ref.Out) > 0 {
+					rt.Fatalf("partially filled swap paid out more than the exact curve prescribes: %s [history %v]", desc, s.Hist)
+				}
+				if new(big.Rat).Sub(ref.Out, gotR).Cmp(ref.Beta) > 0 {
+					rt.Fatalf("partially filled swap paid out less than the exact curve by more than the rounding allowance: %s [history %v]", desc, s.Hist)
+				}
+				betaIn := big.NewRat(3, 1)
+				for _, bk := range ref.Buckets {
+					betaIn.Add(betaIn, big.NewRat(3, 1))
+					if bk.AmountIn != nil {
+						betaIn.Add(betaIn, new(big.Rat).Mul(bk.AmountIn, new(big.Rat).SetFrac(big.NewInt(2), new(big.Int).Exp(big.NewInt(10), big.NewInt(18), nil))))
+					}
+					lo := bk.SqrtTo
+					if bk.SqrtFrom.Cmp(lo) < 0 {
+						lo = bk.SqrtFrom
+					}
+					if lo != nil && lo.Sign() > 0 && bk.L.Sign() > 0 {
+						g := new(big.Rat).Mul(bk.L, new(big.Rat).SetFrac(big.NewInt(4), new(big.Int).Exp(big.NewInt(10), big.NewInt(36), nil)))
+						g.Mul(g, new(big.Rat).Add(big.NewRat(1, 1), new(big.Rat).Inv(new(big.Rat).Mul(lo, lo))))
+						betaIn.Add(betaIn, g)
+					}
+				}
+				if new(big.Rat).Sub(ref.In, paidR).Cmp(big.NewRat(1, 1000)) > 0 {
+					rt.Fatalf("partially filled swap charged less than the exact curve consumed up to the price boundary (%s): %s [history %v]", ref.In.FloatString(3), desc, s.Hist)
+				}
+				if new(big.Rat).Sub(paidR, ref.In).Cmp(betaIn) > 0 {
+					rt.Fatalf("partially filled swap (price boundary reached) charged %s, the exact curve consumed only %s up to the boundary (allowance %s): %s [history %v]", paid, ref.In.FloatString(3), betaIn.FloatString(3), desc, s.Hist)
+				}
+				c.Class("partial-fill-at-price-limit")
+				nt = true
 			} else {
 				c.Class("reference-ran-out-of-liquidity")
 			}
